@@ -54,6 +54,7 @@ fn gen_net(rng: &mut Rng) -> NetCfg {
             dup_pm: *rng.pick(&[0u32, 0, 50, 200]),
             reorder_pm: *rng.pick(&[0u32, 0, 100, 300]),
             delay_max_ms: *rng.pick(&[0u64, 1, 5, 40, 150]),
+            ..Default::default()
         }
     }
 }
@@ -314,7 +315,7 @@ impl Typed for C40 {
             }
             let _ = tokio::time::timeout(Duration::from_secs(30), router.shutdown()).await;
             for c in clients {
-                c.close().await;
+                let _ = tokio::time::timeout(Duration::from_secs(30), c.close()).await;
             }
         });
     }
@@ -467,7 +468,7 @@ impl Typed for C41 {
                     tokio::time::sleep_until(t0 + Duration::from_millis(ms)).await;
                     ctx.ev(format!("endpoint.close() on its own t={ms}"));
                     ext.store(true, std::sync::atomic::Ordering::SeqCst);
-                    s.close().await;
+                    let _ = tokio::time::timeout(Duration::from_secs(30), s.close()).await;
                 }));
                 ctx.count("fault.endpoint_closed_on_its_own");
             }
@@ -481,7 +482,7 @@ impl Typed for C41 {
                 ctx.nontrivial();
             }
             if let Some(c) = client {
-                c.close().await;
+                let _ = tokio::time::timeout(Duration::from_secs(30), c.close()).await;
             }
         });
     }
@@ -839,8 +840,8 @@ impl Typed for C42 {
                 ctx.nontrivial();
             }
             acceptor.abort();
-            client.close().await;
-            server.close().await;
+            let _ = tokio::time::timeout(Duration::from_secs(30), client.close()).await;
+            let _ = tokio::time::timeout(Duration::from_secs(30), server.close()).await;
         });
     }
 
